@@ -6,4 +6,16 @@ def frameHeaderLen : Nat := 9
 def retryWaitMs : Nat := 3000
 def traceTimeoutMs : Nat := 5000
 
+/-- Go kind: uint32 -/
+def ftExpectingBits : Nat := 32
+def ftExpectingSigned : Bool := false
+/-- Go kind: uint64 -/
+def ftActualBits : Nat := 64
+def ftActualSigned : Bool := false
+/-- Go kind: uint32 -/
+def frameLengthBits : Nat := 32
+def frameLengthSigned : Bool := false
+/-- http2.ReadFrameHeader on length bytes ff ff ff -/
+def maxWireFrameLen : Nat := 16777215
+
 end ConfModel.Generated.C15Facts
